@@ -268,7 +268,11 @@ impl FsCommand {
             let _ = fs::remove_file(target.to_path_buf());
             return Err(e);
         }
-        Self::remove(source)?;
+        if let Err(e) = Self::remove(source) {
+            // The file stays where it was, so the move has failed. Don't leave the copy behind.
+            let _ = fs::remove_file(target.to_path_buf());
+            return Err(e);
+        }
         Ok(())
     }
 
